@@ -226,17 +226,18 @@ Proof.
     + apply IH.
 Qed.
 
-Lemma run_dir_trace cbs cbf d bs s :
-  exists t, out_state (run_dir trace_setup (trace_callback cbf) cbs d bs s) = s ++ t /\
+Lemma run_dir_trace cbs cbset cbf d bs s :
+  exists t, out_state (run_dir trace_setup (trace_callback cbset cbf) cbs d bs s) = s ++ t /\
             Forall (fun e => ev_dir e = d) t.
 Proof.
   unfold run_dir. destruct (run_blocks_trace d bs 0%nat s) as [t [Ht Hf]].
   destruct (run_blocks trace_setup d bs 0 s) as [s'|s']; simpl in Ht; subst s'.
   - destruct cbs.
-    + exists (t ++ [ECallback d]). split.
-      * unfold trace_callback. rewrite app_assoc.
-        destruct cbf as [f|]; [destruct (beq f d)|]; reflexivity.
-      * apply Forall_app. split; [exact Hf | repeat constructor].
+    + unfold trace_callback. destruct (mem d cbset).
+      * exists (t ++ [ECallback d]). split.
+        -- rewrite app_assoc. destruct cbf as [f|]; [destruct (beq f d)|]; reflexivity.
+        -- apply Forall_app. split; [exact Hf | repeat constructor].
+      * exists t. split; [reflexivity | exact Hf].
     + exists t. split; [reflexivity | exact Hf].
   - exists t. split; [reflexivity | exact Hf].
 Qed.
@@ -255,14 +256,14 @@ Proof.
   - apply fo_here; [exact He | apply IH; exact H2].
 Qed.
 
-Lemma execute_trace cbs cbf dirs bs : forall s,
-  exists t, out_state (execute trace_setup (trace_callback cbf) cbs dirs bs s) = s ++ t /\
+Lemma execute_trace cbs cbset cbf dirs bs : forall s,
+  exists t, out_state (execute trace_setup (trace_callback cbset cbf) cbs dirs bs s) = s ++ t /\
             follows dirs t.
 Proof.
   induction dirs as [|d r IH]; intro s; simpl.
   - exists []. rewrite app_nil_r. split; constructor.
-  - destruct (run_dir_trace cbs cbf d bs s) as [t [Ht Hf]].
-    destruct (run_dir trace_setup (trace_callback cbf) cbs d bs s) as [s'|s']; simpl in Ht; subst s'.
+  - destruct (run_dir_trace cbs cbset cbf d bs s) as [t [Ht Hf]].
+    destruct (run_dir trace_setup (trace_callback cbset cbf) cbs d bs s) as [s'|s']; simpl in Ht; subst s'.
     + destruct (IH (s ++ t)) as [t2 [Ht2 Hf2]].
       exists (t ++ t2). split; [rewrite Ht2, app_assoc; reflexivity | apply follows_app; assumption].
     + exists t. split; [reflexivity|]. rewrite <- (app_nil_r t). apply follows_app; [exact Hf | constructor].
@@ -302,19 +303,19 @@ Proof.
     apply le_n_S. apply (IH Hnd' t1 e1 t2 e2 t3). reflexivity.
 Qed.
 
-Lemma trace_order cbs cbf dirs bs :
+Lemma trace_order cbs cbset cbf dirs bs :
   NoDup dirs ->
   forall t1 e1 t2 e2 t3,
-  out_state (trace_of cbs cbf dirs bs) = t1 ++ e1 :: t2 ++ e2 :: t3 ->
+  out_state (trace_of cbs cbset cbf dirs bs) = t1 ++ e1 :: t2 ++ e2 :: t3 ->
   (index_of (ev_dir e1) dirs <= index_of (ev_dir e2) dirs)%nat.
 Proof.
   intros Hnd t1 e1 t2 e2 t3 Heq. unfold trace_of in Heq.
-  destruct (execute_trace cbs cbf dirs bs []) as [t [Ht Hf]]. simpl in Ht.
+  destruct (execute_trace cbs cbset cbf dirs bs []) as [t [Ht Hf]]. simpl in Ht.
   rewrite Ht in Heq. eapply follows_order; eassumption.
 Qed.
 
-Lemma trace_admissible cbs cbf dirs bs bs' :
-  blocks_admissible bs bs' -> trace_of cbs cbf dirs bs = trace_of cbs cbf dirs bs'.
+Lemma trace_admissible cbs cbset cbf dirs bs bs' :
+  blocks_admissible bs bs' -> trace_of cbs cbset cbf dirs bs = trace_of cbs cbset cbf dirs bs'.
 Proof. intro H. unfold trace_of. apply execute_adm. exact H. Qed.
 
 (* ================= http: the middleware stack ================= *)
